@@ -131,6 +131,56 @@ def probe(res, rng, n):
                                                                     stored_scale_before_call=None if d.scale is None else float(d.scale)),
                                            observed=got, expected=want))
             d.scale = got       # what _estimate_model_statistics does after every fit
+    # integer-typed targets (counts straight from np.random.poisson / a label array) must give the deviance of the same numbers as floats
+    for fam in FAMS:
+        for rep in range(6):
+            L = float(rng.choice([1, 3, 10])) if fam == 'BinomialDist' else 1.0
+            d = mk(fam, 1.0 if fam in ('BinomialDist', 'PoissonDist') else float(10 ** rng.uniform(-1, 1)), L)
+            k = rng.randint(3, 8)
+            hi = int(L) if fam == 'BinomialDist' else 40
+            yi = np.array([rng.randint(0 if fam in ('BinomialDist', 'PoissonDist') else 1, hi) for _ in range(k)], dtype=rng.choice(['int64', 'int32']))
+            mus = np.array([L * rng.uniform(0.05, 0.95) if fam == 'BinomialDist' else 10 ** rng.uniform(-0.5, 1.5) for _ in range(k)])
+            ws = np.array([f32(10 ** rng.uniform(-1, 1)) for _ in range(k)])
+            with np.errstate(all='ignore'):
+                di = np.asarray(d.deviance(y=yi.copy(), mu=mus.copy(), weights=ws, scaled=True), dtype=float)
+                df = np.asarray(d.deviance(y=yi.astype(float), mu=mus.copy(), weights=ws, scaled=True), dtype=float)
+            res.case(('int-targets', fam, rep))
+            if not np.allclose(di, df, rtol=1e-12, atol=0):
+                res.violations.append(dict(what='deviance of integer-typed targets differs from the deviance of the same targets as floats', finding=None,
+                                           input=dict(family=fam, levels=L, scale=None if d.scale is None else float(d.scale), y=yi.tolist(), dtype=str(yi.dtype),
+                                                      mu=mus.tolist(), weights=ws.tolist()),
+                                           observed=di.tolist(), expected=df.tolist()))
+    # the scale of a MODEL whose family has an unknown scale is re-estimated by every fit of the same object (generic GAM keeps its
+    # distribution object between fits), and a user-supplied scale is kept
+    import pygam
+    nprs2 = np.random.RandomState(rng.randrange(1 << 30))
+    for dname, lname in (('normal', 'identity'), ('gamma', 'log'), ('inv_gauss', 'log')):
+        for supplied in (None, 0.7):
+            kw = {} if supplied is None else dict(scale=supplied)
+            dist = pygam.pygam.DISTRIBUTIONS[dname](**kw) if hasattr(pygam.pygam, 'DISTRIBUTIONS') else dname
+            gam = pygam.GAM(pygam.s(0, n_splines=6), distribution=dist, link=lname)
+            for rep, noise in enumerate((0.05, 0.6, 0.2)):
+                n = 40 + 7 * rep
+                X = nprs2.rand(n, 1)
+                eta = np.sin(3 * X[:, 0])
+                y = eta + noise * nprs2.randn(n) if dname == 'normal' else np.exp(eta) * nprs2.gamma(1 / noise, noise, size=n)
+                wts = np.asarray(10 ** nprs2.uniform(-0.5, 0.5, size=n), dtype=np.float32).astype(float)
+                with np.errstate(all='ignore'):
+                    import warnings as _w
+                    with _w.catch_warnings():
+                        _w.simplefilter('ignore')
+                        gam.fit(X, y, weights=wts)
+                    mu = gam.predict_mu(X)
+                    pearson = float(np.sum(wts * (y - mu) ** 2 / gam.distribution.V(mu=mu)) / (n - gam.statistics_['edof']))
+                want = supplied if supplied is not None else pearson
+                got = float(gam.statistics_['scale'])
+                res.case(('model-scale', dname, supplied, rep))
+                if not (math.isclose(got, want, rel_tol=1e-6) and math.isclose(float(gam.distribution.scale), want, rel_tol=1e-6)):
+                    res.violations.append(dict(what='scale of fit number %d of the same generic GAM object is not %s' % (rep + 1, 'the user-supplied scale' if supplied is not None else
+                                                    'the weighted Pearson statistic / (n - edof) of that fit'), finding=None,
+                                               input=dict(model="GAM(s(0, n_splines=6), distribution='%s', link='%s'%s)" % (dname, lname, '' if supplied is None else ', scale=%r' % supplied),
+                                                          fit_number=rep + 1, X=X[:, 0].tolist(), y=y.tolist(), weights=wts.tolist()),
+                                               observed=dict(statistics_scale=got, distribution_scale=float(gam.distribution.scale)), expected=want))
     # sampler moments: supporting statistical test (not a proof): 40000 draws, 7-sigma concentration bound on mean and variance
     nprs = np.random.RandomState(rng.randrange(1 << 30))
     state = np.random.get_state()
@@ -223,8 +273,12 @@ def run(res):
                 else:
                     a, b = float(d.log_pdf(Y, M, W)[0]), float(d.log_pdf(Y, M2, W)[0])
                     if math.isfinite(a) and math.isfinite(b):
+                        # binomial: the code passes p = mu / levels rounded to binary64; ln(1 - p) then carries eps * p / (1 - p) (saturated means)
+                        sat = 0.0
+                        if fam == 'BinomialDist':
+                            sat = sum(4 * 2.3e-16 / float(REL) * w * L * (1.0 / (1.0 - m_ / L) + 1.0) for m_ in (mu, mu2))
                         goals.append(goal('(Gen_%s_log_pdf %s - Gen_%s_log_pdf %s)' % (fam, args(scale, L, w, y, mu), fam, args(scale, L, w, y, mu2)), a - b,
-                                          abs(a) + abs(b)))
+                                          abs(a) + abs(b) + sat))
                         meta.append(dict(base, what='log_pdf difference', mu2=mu2, value=a - b))
                 # sampler arguments
                 got = sample_args(fam, d, M)
